@@ -152,6 +152,9 @@ func cmdCheck(args []string) int {
 		if *only != "" && !strings.Contains(k, *only) {
 			continue
 		}
+		if S.Contracts[k].Trusted {
+			continue // assumed contract (listed in the evidence under trusted_base), not verified
+		}
 		works = append(works, work{fn, S.Contracts[k], false})
 	}
 	// sweep functions
